@@ -125,7 +125,12 @@ func init() {
 		regI(pre+"UnmarshalInterface", "empty bytes leave the target nil; otherwise *ptr = unm_Dyn(bytes); err == nil", func(x *Exec, st *State, ci *callInfo, recv Val, a []Val) Val {
 			bz := tt(a[0])
 			_, unm := x.e.marshalDyn()
-			p := a[1].(*PtrV)
+			var p *PtrV
+			if iv, ok := a[1].(*IfaceV); ok {
+				p = iv.V.(*PtrV)
+			} else {
+				p = a[1].(*PtrV)
+			}
 			d := Ite(Eq(StrLen(bz), IntLit(0)), T{S: "dyn_nil", So: "Dyn"}, app("Dyn", unm, bz))
 			x.storeTo(st, p, &IfaceV{Sym: true, Dyn: d}, nil, ci.pos)
 			return &ErrV{IsNil: TTrue}
@@ -217,10 +222,10 @@ func init() {
 		})
 	}
 	ifaceModels[bk+"SendCoinsFromModuleToAccount"] = func(x *Exec, st *State, ci *callInfo, recv Val, a []Val, k func(*State, Val)) {
-		x.usedModels[bk+"SendCoinsFromModuleToAccount"] = "err == nil: module balance had >= a; module -= a, account += a"
+		x.usedModels[bk+"SendCoinsFromModuleToAccount"] = "err == nil: recipient is not the (blocked) module account and module balance had >= a; module -= a, account += a"
 		to := tt(a[2])
 		x.bankOp(st, ci, []Val{a[0], a[1], a[3]}, k, func(st *State, w int, d, am T) T {
-			pre := Ge(sel2(st.Worlds[w]["Bal"], ghostModuleAddr(), d), am)
+			pre := And(Ge(sel2(st.Worlds[w]["Bal"], ghostModuleAddr(), d), am), Not(Eq(to, ghostModuleAddr())))
 			x.ghostAdd(st, w, "Bal", ptrT(ghostModuleAddr()), d, app(SInt, "-", am))
 			x.ghostAdd(st, w, "Bal", &to, d, am)
 			return pre
@@ -322,6 +327,15 @@ func init() {
 		st.assume(And(Ge(s, IntLit(0)), Lt(s, BigLit(two64))), "sequence is uint64")
 		return &TupleV{Vs: []Val{s, &ErrV{IsNil: app(SBool, "uf_accexists", tt(a[1]))}}}
 	})
+}
+
+var tempAddrBytes = []byte{1, 1, 1, 1, 1, 1, 1, 1, 1, 1, 1, 1, 1, 1, 1, 1, 1, 1, 1, 1}
+
+func init() {
+	globalModels["github.com/MinterTeam/mhub2/module/x/mhub2/types.TempAddress"] = func(x *Exec, st *State) Val {
+		return T{S: smtStrLit(tempAddrBytes), So: SString}
+	}
+	constSpec["tempAddr"] = T{S: smtStrLit(tempAddrBytes), So: SString}
 }
 
 func ptrT(t T) *T { return &t }
